@@ -91,6 +91,16 @@ fn part_a(a: &Args, out: &mut Out, rng: &mut Rng) {
     });
 }
 
+/// canonical text of a clause list (as the Lean driver prints it): literals ascending, clause strings sorted
+fn fmt_stored(cs: &[Vec<i32>]) -> String {
+    let mut v: Vec<String> = cs.iter().map(|c| { let mut c = c.clone(); c.sort(); c.iter().map(|l| l.to_string()).collect::<Vec<_>>().join(" ") }).collect();
+    v.sort();
+    v.join(" / ")
+}
+fn fmt_ops(ops: &[(Vec<i32>, ClauseApplication)]) -> String {
+    ops.iter().map(|(c, ap)| format!("{} {}", if *ap == ClauseApplication::Add { "a" } else { "r" }, c.iter().map(|l| l.to_string()).collect::<Vec<_>>().join(" "))).collect::<Vec<_>>().join(" / ")
+}
+
 fn rand_clause(rng: &mut Rng, n: u32, maxw: usize) -> Clause {
     let w = 1 + rng.below(maxw.min(n as usize));
     let mut c = Clause::new();
@@ -116,6 +126,9 @@ fn part_b(a: &Args, out: &mut Out, rng: &mut Rng) {
             Ok(d) => d,
             Err(e) => { out.fail("cnf-load-panic", &text, "load", &format!("panic: {e}"), "a model"); continue; }
         };
+        // the Lean machine (Model/EditCnf.lean) follows the same history: stored clause list after loading ...
+        out.query("ecinit", &format!("{} | {}", n, cls.iter().map(|c| c.iter().map(|l| l.to_string()).collect::<Vec<_>>().join(" ")).collect::<Vec<_>>().join(" / ")), &fmt_stored(&d.inter_graph.cnf_clauses));
+        let mut ec_live = true;
         let mut cur_n = n;
         let mut cur_tt = cnf_tt(n, &cls);
         let mut hist: Vec<String> = Vec::new();
@@ -185,6 +198,7 @@ fn part_b(a: &Args, out: &mut Out, rng: &mut Rng) {
                     if w < 12 { let v = 1 + rng.below(cur_n as usize) as i32; added.push(vec![v, -v]); }                       // tautology
                     else if w < 22 && !stored.is_empty() { added.push(rng.pick(&stored).clone()); }                                // duplicate of a stored clause
                     else if w < 34 { let other = 1 + rng.below(cur_n as usize) as i32; let fresh = cur_n + 1 + rng.below(2) as u32; nn = nn.max(fresh); added.push(vec![fresh as i32, if rng.chance(0.5) { other } else { -other }]); }
+                    else if w < 40 { let fresh = cur_n + 1 + rng.below(3) as u32; nn = nn.max(fresh); added.push(vec![if rng.chance(0.5) { fresh as i32 } else { -(fresh as i32) }]); }   // unit clause over a new variable
                     else { added.push(rand_clause(rng, cur_n, 4).into_iter().collect()); }
                 }
                 let mut t = extend_tt(&cur_tt, nn);
@@ -199,9 +213,21 @@ fn part_b(a: &Args, out: &mut Out, rng: &mut Rng) {
             let h = hist.join(" ; ");
             out.eval(Some(format!("{text}|{h}")));
             let before = (cur_tt.clone(), cur_n, ops.clone());
+            let ops_text = fmt_ops(&ops);
+            let eff_empty = ops.iter().all(|(c, _)| c.is_empty() || c.iter().any(|l| c.contains(&-l)));
             match apply(&mut d, ops) {
                 Err(e) => { out.fail(if used_subdag { "edit-panic-after-subdag-replacement" } else { "edit-panic" }, &text, &h, &format!("panic: {e}"), "edited model"); break; }
                 Ok(s) => { out.count(&format!("B_strategy_{}", strategy_name(s)), 1); if s == IncrementalStrategy::SubDAGReplacement { used_subdag = true; } last_strategy = s; hist.last_mut().map(|l| l.push_str(&format!(" [{}]", strategy_name(s)))); }
+            }
+            // ... and strategy, stored clause list and denotation after every edit
+            if ec_live {
+                let untracked = last_strategy == IncrementalStrategy::SubDAGReplacement || (last_strategy == IncrementalStrategy::Tautology && !eff_empty);
+                let choice = if untracked { "splice" } else { "recompile" };
+                let expected = if untracked { "untracked".to_string() } else {
+                    format!("{} | {} | {}", strategy_name(last_strategy), fmt_stored(&d.inter_graph.cnf_clauses), if want_n <= 10 { want_tt.to_string01() } else { "-".to_string() }) };
+                out.query("ecedit", &format!("{choice} | {ops_text}"), &expected);
+                out.count("B_lean_machine_steps", 1);
+                if untracked { ec_live = false; }
             }
             // the inverse of an edit that added a unit clause to a CNF-backed model: the stored clauses were unit-propagated with it
             let undoes_unit = step_is_inverse && before.2.iter().any(|(c, ap)| *ap == ClauseApplication::Remove && c.len() == 1);
